@@ -81,8 +81,24 @@ func JSONNumber(r *rand.Rand) string {
 
 // JSONString returns a grammatical JSON string token (with quotes) whose
 // content is drawn from the hostile alphabet, using every escape form.
+// prependRunes have the grapheme-cluster property Prepend: they join the
+// character that FOLLOWS them into one cluster (also a quote or a backslash).
+var prependRunes = []rune{0x0600, 0x0605, 0x06DD, 0x070F, 0x08E2, 0x110BD}
+
 func JSONString(r *rand.Rand, level int) string {
-	return JSONQuote(r, Str(r, level))
+	s := Str(r, level)
+	if level >= 2 && Chance(r, 0.08) {
+		p := string(Pick(r, prependRunes))
+		switch r.Intn(3) {
+		case 0:
+			s += p // directly before the closing quote
+		case 1:
+			s = s + p + Pick(r, []string{"\"", "\\", "\n", "x"}) // before an escape
+		default:
+			s = p + s
+		}
+	}
+	return JSONQuote(r, s)
 }
 
 // JSONQuote encodes s as a JSON string token with randomly chosen escape forms.
